@@ -9,6 +9,18 @@ ROOT = os.path.dirname(os.path.dirname(os.path.abspath(__file__)))
 
 # id -> (level, technique, text, note, design_ref)
 CHECKS = {
+    "C20": (
+        "exploration",
+        "deterministic simulation: the health server runs on the stdlib asyncio Server class over simulated TCP; seeded HTTP clients (garbage, fragments, bursts, idle connections) and a consumer failure injected at a seeded consume() call; twin run without HTTP traffic",
+        "Worker with the health-check server (seeded address/port/endpoint, 1-3 queues, jobs); clients send valid GETs, other "
+        "paths/methods, truncated/binary/1 MiB/fragmented requests, bursts of 2-50 connections, idle connections, before/during/"
+        "after run(); consume() of one consumer raises at a seeded call. Answers vs the status timeline (200 until the failure, "
+        "503 after, 404 otherwise), fragmented GETs answered, no unhandled exception outside a connection's fatal-error path, job "
+        "outcomes equal to the twin run without HTTP traffic, connect succeeds iff run() is in progress, run() returns with "
+        "connections open.",
+        "Samples scenarios; in-memory message broker (the health server is broker-independent). Trusted: SimNet transport semantics and CPython 3.12.1's Server class.",
+        "DESIGN.md section 8 C20",
+    ),
     "C07": (
         "exploration",
         "deterministic simulation used as the offline path through the real wire encoders (redis-py RESP2, aiormq/pamqp over fragmented simulated TCP) with a pinned clock; seeded structured inputs and configurations",
